@@ -14,6 +14,7 @@ type Ctx struct {
 	wrappers          map[*ssa.Function]*storeWrap
 	keyPats           []keyPattern
 	readers           map[string][]readerInfo
+	narrow            map[*types.TypeName]string
 	noReadCanon       int
 	memoWhy           map[*ssa.Lookup]string
 	memos             map[*ssa.Lookup]*memoInfo
